@@ -79,7 +79,7 @@ def leaflist(name, t, ind, extra=""):
 def gen_tree():
     out = ["module vf-tree {\n  yang-version 1.1;\n  namespace \"urn:vf:tree\";\n  prefix vt;\n"
            "  import vf-ids { prefix vf-ids; }\n\n"
-           "  typedef colour { type enumeration { enum RED { value 1; } enum GREEN { value 5; } enum BLUE { value 7; } } }\n"
+           "  typedef colour { type enumeration { enum RED { value 1; } enum GREEN { value 5; } enum BLUE { value 7; } enum \"1:N\" { value 9; } } }\n"
            "  typedef uis { type union { type int32; type string { pattern '[a-z]+'; } } }\n"
            "  typedef e12 { type enumeration { enum E1; enum E2; } }\n"
            "  typedef ueu { type union { type e12; type uint32; } }\n"
@@ -93,6 +93,10 @@ def gen_tree():
         s += "    container c {\n"
         s += leaf("a", r["a"], "      ") + leaf("b", r["b"], "      ") + leaflist("ll", r["ll"], "      ")
         s += "      container p {\n        presence \"p\";\n" + leaf("x", r["x"], "        ") + "      }\n"
+        if int(name[1:]) % 2 == 0:
+            # even-numbered variants: a derived-state leaf c/s whose config false statement sits on the
+            # choice around it (legal YANG: the nodes of the choice inherit it)
+            s += "      choice cc {\n        config false;\n" + leaf("s", r["s"], "        ") + "      }\n"
         s += "    }\n"
         s += "    list l {\n      key \"k\";\n" + leaf("k", r["k"], "      ") + leaf("v", r["v"], "      ")
         s += "      container sub {\n" + leaf("w", r["w"], "        ") + "      }\n    }\n"
@@ -117,7 +121,7 @@ def cs(body_cfg, body_state_extra, ind):
 def gen_oc():
     out = ["module vf-oc {\n  yang-version 1.1;\n  namespace \"urn:vf:oc\";\n  prefix vo;\n"
            "  import vf-ids { prefix vf-ids; }\n\n"
-           "  typedef colour { type enumeration { enum RED { value 1; } enum GREEN { value 5; } enum BLUE { value 7; } } }\n"
+           "  typedef colour { type enumeration { enum RED { value 1; } enum GREEN { value 5; } enum BLUE { value 7; } enum \"1:N\" { value 9; } } }\n"
            "  typedef uis { type union { type int32; type string { pattern '[a-z]+'; } } }\n"
            "  typedef e12 { type enumeration { enum E1; enum E2; } }\n"
            "  typedef ueu { type union { type e12; type uint32; } }\n"
